@@ -316,6 +316,11 @@ func (t *Tree) Decode(o plumbing.EncodedObject) (err error) {
 			return err
 		}
 		modeSlice = modeSlice[:len(modeSlice)-1] // strip delimiter
+		// Upstream Git's get_mode reads any number of octal digits, so
+		// leading zeros must not count against FromBytes' length limit.
+		for len(modeSlice) > 1 && modeSlice[0] == '0' {
+			modeSlice = modeSlice[1:]
+		}
 
 		mode, err := filemode.FromBytes(modeSlice)
 		if err != nil {
